@@ -380,8 +380,9 @@ class Ref:
             fn = re.sub(r"[\s_]+", " ", fn).lower()
             rest = [txt(first.lstrip())] + list(args[1:])
             if fn in ("#if", "#ifeq", "#switch") and not self.parserfns:
-                if in_body:
+                if in_body and not self.leak:
                     self.unsupported = True      # raw arguments with substituted parameters: left to the model
+                    # (the late-expansion variant prints them through defer(), as the code does)
                 if self.leak:
                     return "{{" + fn + ":" + "|".join([first.lstrip()] + [self.defer(a) for a in args[1:]]) + "}}"
                 return "{{" + fn + ":" + "|".join([first.lstrip()] + ["\0RAW" + render(a) + "\0" for a in args[1:]]) + "}}"
@@ -479,7 +480,7 @@ class Ref:
                 val = env.get(canon_key(render(it[1][0])))
                 if val is None and len(it[1]) >= 2 and self.name_has_link(it[1][1], env):
                     return True
-                if isinstance(val, str) and ("[" in val or "]" in val):
+                if isinstance(val, str) and any(ch in val for ch in "[]&<>\"'"):
                     return True
         return False
 
